@@ -204,7 +204,9 @@ class FakeTermios:
 
     def tcflush(self, fd, queue):
         self._chk(fd)
+        self._tty.k.seam("tty.tcflush")
         self._tty.inq.clear()
+        self._tty.k.seam_after("tty.tcflush")
 
 
 SimTTY.write_hook = None
